@@ -31,5 +31,10 @@ CORPUS = [
         'n_tips = int((node_heights.shape[-1] + 1) // 2)\ntaxa_shape = node_heights.shape[:-1] + (n_tips,)', benign=True),
     Mut('c12-benign-literal-tensor', NUC, 'HKY.q', 'kappa = self.kappa', 'kappa = self.kappa * torch.tensor(1.0)', benign=True),
     Mut('c12-benign-index-item', TH, 'GeneralNodeHeightTransform._call', 'heights = x.clone()', 'heights = x.clone()\nlast = int(x.shape[-1]) - 1', benign=True),
+    Mut('c12-where-divides-by-tested-quantity', 'torchtree/evolution/coalescent.py', '', "        integral = intervals / pop_sizes[..., 1:-1]\n        idx = (diff_thetas != 0.0).nonzero(as_tuple=True)\n        integral[idx] = intervals[idx] * diff_log_thetas[idx] / diff_thetas[idx]\n",
+        "        integral = torch.where(diff_thetas != 0.0, intervals * diff_log_thetas / diff_thetas, intervals / pop_sizes[..., 1:-1])\n", expect=[('C12.N', 'PiecewiseLinearCoalescentGrid.log_prob')], mode='text'),
+    Mut('c12-benign-where-with-safe-denominator', 'torchtree/evolution/coalescent.py', '', "        integral = intervals / pop_sizes[..., 1:-1]\n        idx = (diff_thetas != 0.0).nonzero(as_tuple=True)\n        integral[idx] = intervals[idx] * diff_log_thetas[idx] / diff_thetas[idx]\n",
+        "        safe = torch.where(diff_thetas != 0.0, diff_thetas, torch.ones_like(diff_thetas))\n        integral = torch.where(diff_thetas != 0.0, intervals * diff_log_thetas / safe, intervals / pop_sizes[..., 1:-1])\n", benign=True, mode='text'),
+    Mut('c12-math-log-of-parameter', 'torchtree/evolution/coalescent.py', '', "            self.alpha * math.log(self.beta)", "            self.alpha * math.log(node_heights[..., -1])", expect=[('C12.D', 'math()')], mode='text'),
 ]
 CORPUS = [m for m in CORPUS if m.id != 'c12-kernel-detach']
